@@ -172,10 +172,11 @@ class Sub:
     """view of a Check under which another property's rule runs as a prerequisite: rule ids are prefixed (`C14.R4`), instances can be
     filtered by key, floors and advisories of the borrowed rule are kept under the prefixed id"""
 
-    def __init__(self, chk, prefix, only=None):
+    def __init__(self, chk, prefix, only=None, rules=None):
         self._chk = chk
         self._prefix = prefix
         self._only = only
+        self._rules = set(rules) if rules else None      # borrow only these rule ids of a function that decides several
         self.pid = chk.pid
         self.tier = chk.tier
         self.stats = {}
@@ -190,12 +191,15 @@ class Sub:
     def rule(self, rid, text):
         self._chk.rule(self._r(rid), "[prerequisite shared with %s] %s" % (self._prefix, text))
 
+    def _wanted(self, rule):
+        return self._rules is None or rule.split(".")[0] in self._rules
+
     def ok(self, rule, key, loc="", detail=None, nontrivial=True):
-        if self._only is None or self._only(key):
+        if self._wanted(rule) and (self._only is None or self._only(key)):
             self._chk.ok(self._r(rule), key, loc, detail, nontrivial)
 
     def fail(self, rule, key, loc, what, witness=None):
-        if self._only is None or self._only(key):
+        if self._wanted(rule) and (self._only is None or self._only(key)):
             self._chk.fail(self._r(rule), key, loc, what, witness)
 
     def verdict(self, cond, rule, key, loc, what_if_fail, detail=None, witness=None, nontrivial=True):
@@ -206,10 +210,11 @@ class Sub:
         return cond
 
     def anchor_missing(self, rule, what, loc=""):
-        self._chk.anchor_missing(self._r(rule), what, loc)
+        if self._wanted(rule):
+            self._chk.anchor_missing(self._r(rule), what, loc)
 
     def floor(self, rule, seen, floor, what):
-        if self._only is None:
+        if self._only is None and self._wanted(rule):
             self._chk.floor(self._r(rule), seen, floor, what)
 
     def sample(self, obj):
